@@ -47,8 +47,16 @@ def oracle(case):
     op = case[0]
     if op in ("iter",):
         return "[" + " ".join(map(str, fd_set(case[1]))) + "]"
-    if op == "iter_rev":
+    if op == "iter_rev" or op == "into_rev":
         return "[" + " ".join(map(str, reversed(fd_set(case[1])))) + "]"
+    if op == "into_iter":
+        return "[" + " ".join(map(str, fd_set(case[1]))) + "]"
+    if op == "into_alt":
+        l, out, front = list(fd_set(case[1])), [], True
+        while l:
+            out.append(l.pop(0) if front else l.pop())
+            front = not front
+        return "[" + " ".join(map(str, out)) + "]"
     if op == "min":
         return str(min(fd_set(case[1])))
     if op == "max":
@@ -130,7 +138,7 @@ def gen_cases(tier, seed):
     cases = []
     preds = [(k, c) for k in ("gt", "ge", "lt", "le", "eq") for c in range(-w - 1, w + 2)] + [("never", 0), ("always", 0)]
     for d in ds:
-        for op in ("iter", "iter_rev", "min", "max", "is_singleton", "singleton_value"):
+        for op in ("iter", "iter_rev", "into_iter", "into_rev", "into_alt", "min", "max", "is_singleton", "singleton_value"):
             cases.append((op, d))
         for u in range(-w - 1, w + 2):
             cases.append(("contains", d, u))
@@ -146,7 +154,7 @@ def gen_cases(tier, seed):
     ext = extreme_domains()
     extc = []
     for d in ext:
-        for op in ("iter", "iter_rev", "min", "max", "singleton_value"):
+        for op in ("iter", "iter_rev", "into_iter", "into_rev", "into_alt", "min", "max", "singleton_value"):
             extc.append((op, d))
         base = d[1] if d[0] == "i" else min(d[1])
         for c in (base - 1, base, base + 1, base + 2):
